@@ -9,8 +9,9 @@ class Unsupported(Exception):
 
 
 class NeedSplit(Exception):
-    def __init__(self, cond):
+    def __init__(self, cond, alts=None):
         self.cond = cond
+        self.alts = alts  # multiway: list of mutually exclusive, exhaustive conditions
 
 
 # --------------------------------------------------------------------------- values
@@ -127,6 +128,16 @@ class VLazy(V):
 
     def map_terms(self, fn):
         return VLazy(self.ty, self.name, [fn(b) for b in self.binders])
+
+
+class VDyn(V):
+    """Dynamically typed value: tag selects one of the alternatives."""
+
+    def __init__(self, tag, alts, name=""):
+        self.tag, self.alts, self.name = tag, tuple(alts), name  # alts: (Ty, V)
+
+    def map_terms(self, fn):
+        return VDyn(fn(self.tag), [(t, v.map_terms(fn)) for t, v in self.alts], self.name)
 
 
 class VFunc(V):
